@@ -375,8 +375,30 @@ Monitor *mk_c10_wellformed(World *) { return nullptr; }   // folded into the led
 // ================================================================== probes
 struct Probes : Monitor {
 	World *w;
-	Probes(World *w) : w(w) {}
+	Probes(World *w) : w(w)
+	{
+		Probes *self = this;
+		w->result_hooks.push_back([self](J &r) {
+			J a = J::arr(); for (auto x : self->states) a.push(J((long long)x)); r.set("abs_states", a);
+			J b = J::arr(); for (auto x : self->trans) b.push(J((long long)x)); r.set("abs_trans", b);
+		});
+	}
 	int last_out_seq = -1, last_in_seq = -1;
+	// abstract per-session protocol state of the server after each of its steps (reach measure):
+	// lazy, query held, realsoon held, duplicate remembered, outpacket active, queue fill, resend count, inpacket mid-assembly,
+	// out fragment class, connection type
+	std::set<uint32_t> states; std::set<uint64_t> trans; std::map<int, uint32_t> prev;
+	void abstract(int u, const UserView &v)
+	{
+		uint32_t fragc = v.out.fragment == 0 ? 0 : v.out.fragment == 1 ? 1 : v.out.fragment < 15 ? 2 : 3;
+		uint32_t st = (v.lazy ? 1u : 0) | (v.q_id ? 2u : 0) | (v.qsrs_id ? 4u : 0) | ((v.q_id2 || v.qsrs_id2) ? 8u : 0) | (v.out.len > 0 ? 16u : 0) |
+			((uint32_t)std::min(v.outq_filled, 4) << 5) | ((uint32_t)std::min(v.outfragresent, 6) << 8) | (v.in.len > 0 ? 2048u : 0) | (fragc << 12) | (v.conn ? 16384u : 0) |
+			(v.authenticated ? 32768u : 0) | (v.authenticated_raw ? 65536u : 0);
+		states.insert(st);
+		auto it = prev.find(u);
+		if (it != prev.end() && it->second != st && trans.size() < 4000) trans.insert(((uint64_t)it->second << 20) | st);
+		prev[u] = st;
+	}
 	void on_block(Task &t) override
 	{
 		if (&t != w->srv) return;
@@ -384,6 +406,7 @@ struct Probes : Monitor {
 		for (int u = 0; u < n; u++) {
 			UserView v;
 			if (!peek_user(u, v) || !v.active) continue;
+			abstract(u, v);
 			if (v.q_id && v.qsrs_id) w->probes["srv.both_slots_held"]++;
 			if (v.q_id2 || v.qsrs_id2) w->probes["srv.id2_remembered"]++;
 			if (v.outq_filled >= 4) w->probes["srv.outq_full"]++;
